@@ -23,6 +23,7 @@ from sa.pyfront import Program
 from sa.symex import Interp
 
 RULES = {
+    "R-C05-j": "the reconstructed cell at a common category is exactly margin - sum(uncommon cells), unclamped and untolerated, for every region (imported from C02 R-C02-e): otherwise a category's value depends on whether it is the one encoded as common",
     "R-C05-i": "every sub-cube task walks its dimensions unconditionally - also when a dimension has no stored entry, which happens exactly when all its rows hold the common value (imported from C02 R-C02-g): otherwise the margins that differencing needs are never written for that encoding only",
     "R-C05-h": "the walk presents every non-empty uncommon and marginal combination exactly once (imported from the C14 schema analysis): the split between visited cells and differenced cells is the only place where the choice of common value enters",
     "R-C05-g": "the index methods the cubes read a dimension through (slices1d, sliced, items, get, common_rowids, copy) write nothing on the index (imported from the C17 frame analysis): a memo kept on the index survives an in-place shift_common and feeds the old entry set to the next cube",
@@ -265,6 +266,14 @@ def main(tier):
         rep.add("R-C05-i", o.where, "[%s] %s" % (o.rule, o.construct), o.status, o.detail, True,
                 o.witness if o.status != "VIOLATED" else dict(o.witness or {}, history="a dimension whose rows all hold category c, encoded with c as common, crossed with another dimension: every cell but the all-common one reads as missing; any other encoding is right"))
     rep.floor("R-C05-i", 2, len(sub2g.obls))
+    # R-C05-j: a category's cell is the same whether it is stored (filled directly) or is the common one (reconstructed):
+    # the reconstruction is exactly margin - sum(uncommon), for every region alike - signed sums too (C02's rule R-C02-e)
+    sub2e = core.Report("C02", level="other", rules=c02.RULES, tier=tier)
+    c02.rule_e(prog, sub2e)
+    for o in sub2e.obls:
+        rep.add("R-C05-j", o.where, "[%s] %s" % (o.rule, o.construct), o.status, o.detail, True,
+                o.witness if o.status != "VIOLATED" else dict(o.witness or {}, history="facts with a negative total in one category: ccube.sum differs between the encoding where that category is common (reconstructed, altered) and one where it is stored"))
+    rep.floor("R-C05-j", 3, len(sub2e.obls))
     return rep.finish()
 
 
